@@ -53,6 +53,23 @@ def exact_face_integrals(dim, axis, value, coefs, lo=0, hi=1):
     return I0, Ik
 
 
+def exact_box_integrals(dim, coefs, lengths):
+    """integral over the box [0, L_0] x ... of f = c0 + c.x and of x_k f"""
+    L = [Fraction(v) for v in lengths[:dim]]
+    vol = Fraction(1)
+    for v in L:
+        vol *= v
+    m1 = [vol * L[d] / 2 for d in range(dim)]  # int x_d
+    I0 = coefs[0] * vol + sum(coefs[1 + o] * m1[o] for o in range(dim))
+    Ik = []
+    for k in range(dim):
+        v = coefs[0] * m1[k]
+        for o in range(dim):
+            v = v + coefs[1 + o] * (vol * L[k] * L[k] / 3 if o == k else vol * L[k] * L[o] / 4)
+        Ik.append(v)
+    return I0, Ik
+
+
 def exact_volume_integrals(dim, coefs):
     half, third, quarter = Fraction(1, 2), Fraction(1, 3), Fraction(1, 4)
     I0 = coefs[0] + sum(coefs[1 + o] * half for o in range(dim))
@@ -76,8 +93,15 @@ def job_continuum(cfg):
     mesh = simlib.gmsh_mesh(et, layers=1) if et != "MIXED" else None
     if mesh is None:
         mesh = simlib.transform_mesh(simlib.mixed_mesh_interior(), np.diag([0.5, 0.5, 1.0]))
+    if cfg.get("merged"):
+        # half model + mirror image glued with Symmetry + Merge: one group mixes both numbering orientations; domain [0,2] x [0,1]^(dim-1)
+        from EasyFEA import Mesh
+
+        other = mesh.copy()
+        other.Symmetry((1.0, 0.0, 0.0), (1.0, 0.0, 0.0))
+        mesh = Mesh.Merge([mesh, other])
     dim = mesh.dim
-    key = f"{sim} {et} {load} {cfg.get('selection', 'face')}"
+    key = f"{sim} {et} {load} {cfg.get('selection', 'face')}" + (" half + mirrored half" if cfg.get("merged") else "")
     t = c.var("thickness", Fraction(1, 2), 2)
     coefs = [c.var(f"c{i}", -1, 1) for i in range(dim + 1)]
     x0 = [c.var(f"x0_{i}", -2, 2) for i in range(dim)]
@@ -170,7 +194,7 @@ def job_continuum(cfg):
             want_M = [Ik[k] * thick_factor for k in range(dim)]
         elif load == "volume_poly":
             simu.add_volumeLoad(mesh.nodes, [f_of(coefs)], [unknown])
-            I0, Ik = exact_volume_integrals(dim, coefs)
+            I0, Ik = exact_volume_integrals(dim, coefs) if not cfg.get("merged") else exact_box_integrals(dim, coefs, [2, 1, 1])
             want_F = I0 * thick_factor
             want_M = [Ik[k] * thick_factor for k in range(dim)]
         elif load == "point":
@@ -371,6 +395,9 @@ def main():
             k += 1
     for et in ("TRI3", "QUAD4", "TETRA4", "PRISM6"):
         configs.append({"sim": "elastic", "elem": et, "load": "surf_poly", "selection": "only-stray", "axis": 0, "value": 1.0})
+    for et in (("TRI3", "HEXA8") if tier == "quick" else ("TRI3", "TRI6", "QUAD4", "TETRA4", "HEXA8")):
+        configs.append({"sim": "elastic", "elem": et, "load": "volume_poly", "selection": "face", "axis": 1, "value": 1.0, "merged": True})
+        configs.append({"sim": "thermal", "elem": et, "load": "volume_poly", "selection": "face", "axis": 1, "value": 1.0, "merged": True})
     for et in (["TRI3", "QUAD8"] if tier == "quick" else ["TRI3", "TRI6", "QUAD4", "QUAD8", "TETRA4", "HEXA8"]):
         for load in ("surf_poly", "volume_poly"):
             configs.append({"sim": "thermal", "elem": et, "load": load, "selection": "face", "axis": 1, "value": 1.0})
